@@ -347,6 +347,27 @@ def run(R):
             p = kit.path_avoiding_guard(fcfg, short, no_pred, N)
             R.check(p is None, "C14.FILTER", f.qualname + ":shortcut", R.site(f), "%s ignores the predicate only when it is None" % h,
                     "%s can take the truthiness shortcut although a predicate was given: the async predicate is never applied" % h, fcfg.fmt_path(p) if p else None)
+        # filter() and itertools.filterfalse() both accept None as the predicate (truthiness of the element): the helper
+        # must not ask None for its .asynq attribute, and the shortcut is the builtin of the same polarity
+        pred = q.param_names(f.node)[0]
+        uses = [n for n in fcfg.nodes if any(isinstance(x, ast.Attribute) and isinstance(x.value, ast.Name) and x.value.id == pred for e_ in kit.node_exprs(n) for x in ast.walk(e_))]
+
+        def has_pred(nd):
+            if nd.kind != "test":
+                return None
+            k, s, pos = q.atom_test(nd.ast)
+            if k == "isnone" and s == pred:
+                return "F" if pos else "T"
+            return None
+        p = kit.path_avoiding_guard(fcfg, uses, has_pred, N) if uses else None
+        want = "filterfalse" if negate else "filter"
+        names_ = set((q.call_name(c) or "").split(".")[-1] for n, c in kit.call_sites(f, lambda c: (q.call_name(c) or "").split(".")[-1] in ("filter", "filterfalse")
+                                                                                   and c.args and q.is_none(c.args[0])))
+        R.check(p is None and names_ == {want}, "C14.FILTER", f.qualname + ":none-predicate", R.site(f),
+                "%s(None, seq) is answered by %s(None, seq), like the synchronous equivalent" % (h, want),
+                "%s: %s" % (h, ("a None predicate reaches `%s.asynq`: %s(None, seq) raises AttributeError where the synchronous %s(None, seq) selects by the "
+                                "truthiness of the elements" % (pred, h, want)) if p is not None else
+                            "the None-predicate shortcut uses %s, not %s" % (sorted(names_) or "nothing", want)), fcfg.fmt_path(p) if p else None)
         live = fcfg.reachable([fcfg.entry], N)
         sel_nodes = [n for n in fcfg.nodes if any(c is x for c in cc for x in kit.node_calls(n))]
         R.check(any(n.id in live for n in sel_nodes), "C14.FILTER", f.qualname + ":live", R.site(f), "the predicate path of %s is reachable" % h,
@@ -362,6 +383,21 @@ def run(R):
     w = repo.fn("tools.aretry.decorator.wrapper")
     top = repo.fn("tools.aretry")
     common.int_identity(R, "C14.RETRY", [w] + [repo.fn("tools." + nm) for nm in ("amap", "afilter", "afilterfalse", "asorted", "amax", "amin", "asift")])
+    # the attempt count belongs to the call: several calls of one decorated function are in flight together (amap over it), so a
+    # counter kept on the function object, in the closure or in a global is shared - and reset - by all of them
+    shared = []
+    for n in q.scope_nodes(w.node):
+        if isinstance(n, (ast.Assign, ast.AugAssign)):
+            for t in (n.targets if isinstance(n, ast.Assign) else [n.target]):
+                if isinstance(t, ast.Attribute) and isinstance(t.value, ast.Name) and t.value.id in (w.name, "fn", "self"):
+                    shared.append(n)
+        if isinstance(n, (ast.Nonlocal, ast.Global)):
+            shared.append(n)
+    R.check(not shared, "C14.RETRY", w.qualname + ":per-call-state", R.site(w, shared[0] if shared else None),
+            "the wrapper keeps its attempt count in locals of the call",
+            "the wrapper keeps state outside the call (`%s`): calls of the same decorated function that are in flight together (issued by amap, each "
+            "waiting for a batch) share and reset one attempt counter, so a call gives up after fewer than min(k+1, max_tries) runs of its body"
+            % (q.src(shared[0])[:50] if shared else ""))
     loops = [n for n in q.scope_nodes(w.node) if isinstance(n, ast.For)]
     R.need(len(loops) == 1, "idiom: aretry's wrapper is not a single for loop")
     lp = loops[0]
